@@ -371,7 +371,29 @@ def rule_style_cache(ctx):
     ctx.check(ok, R, "unavailable-errs", b.where(0), "a cached Unavailable state answers every read with Err", "Unavailable does not map to Err")
 
 
+def rule_peek_errno(ctx, R="C17/peek-errno"):
+    """PTRACE_PEEK* return the peeked word as the result of the call, so -1 is both 'error' and the legal data word 0xffff..ff:
+    a raw libc::ptrace PEEK request must be preceded by Errno::clear() (and then judged by errno), as nix::sys::ptrace::read and the
+    crate's own ptrace_peek do — otherwise the word-by-word strategy fails on readable memory that holds an all-ones word"""
+    n = 0
+    for b in ctx.prog.bodies:
+        o = None
+        for bi, t in b.calls(lambda c: (c.target or c.short) == "libc::ptrace"):
+            o = o or Origin(b)
+            req = core(o.call_args(bi)[0])
+            is_peek = (is_const(req) and req[1] in (1, 2, 3)) or (not is_const(req) and "peek" in b.short.lower())
+            if not is_peek:
+                continue
+            n += 1
+            clears = [x for x, t2 in b.calls(lambda c: (c.short or c.target or "").split("::")[-1] == "clear" and "Errno" in (c.short or c.target or ""))]
+            ok = any(b.dominates(x, bi) for x in clears)
+            ctx.check(ok, R, (b.short.split("::")[-1], "#%d" % n), b.where(bi), "errno is cleared before the raw PEEK request (a returned -1 can then be told apart from an error)",
+                      "raw libc::ptrace PEEK request without Errno::clear(): a data word of all ones (-1) is indistinguishable from an error and the read of readable memory fails")
+    ctx.floor(R, "raw PEEK requests examined", n, 1)
+
+
 def run(ctx):
+    rule_peek_errno(ctx)
     rule_no_over_read(ctx)
     rule_args(ctx)
     rule_prefix_only(ctx)
